@@ -57,13 +57,12 @@ func (inst *InstAlloca) String() string {
 
 // Type returns the type of the instruction.
 func (inst *InstAlloca) Type() types.Type {
-	// Cache type if not present.
-	if inst.Typ == nil {
+	// Cache type if not present. The address space may be set after the type
+	// has been cached (the constructor and the parser both cache the type
+	// first); a cached type of another address space is replaced (not edited:
+	// it may be shared).
+	if inst.Typ == nil || inst.Typ.AddrSpace != inst.AddrSpace {
 		inst.Typ = types.NewPointer(inst.ElemType)
-		inst.Typ.AddrSpace = inst.AddrSpace
-	} else if inst.Typ.AddrSpace != inst.AddrSpace {
-		// The address space may be set after the type has been cached (the
-		// constructor and the parser both cache the type first).
 		inst.Typ.AddrSpace = inst.AddrSpace
 	}
 	return inst.Typ
